@@ -144,3 +144,34 @@ Definition no_dup_no_disorder (d : node) (ps : list (option N * pyval)) : bool :
 Fixpoint nodupb (l : list N) : bool :=
   match l with [] => true | x :: r => negb (existsb (N.eqb x) r) && nodupb r end.
 Definition wf_docb (d : node) : bool := nodupb (coids d).
+
+(* ---- what the read side promises for a single path without Collectors ----
+   In GATHER order (the loop walks it reversed) every coordinate locates a node
+   of the document (a non-root parent object of the document and a parentref
+   naming one of its children), and any two coordinates with the same parent
+   name different children, the earlier one the earlier child ("document order
+   within each parent, each node once"); a negative sequence index is only
+   acceptable as the last coordinate of its parent (it is resolved against the
+   length the sequence has when its turn comes).  Computable; the harness
+   evaluates the same predicate on the real gathered NodeCoords. *)
+Definition later_ok (d : node) (o : N) (i : nat) (neg : bool) (q : option N * pyval) : bool :=
+  match target_of d (fst q) (snd q) with
+  | Some (o', j) => negb (N.eqb o' o) || (Nat.ltb i j && negb neg)
+  | None => false
+  end.
+
+Definition neg_index (d : node) (po : option N) (r : pyval) : bool :=
+  is_neg r && match po with
+              | Some o => match objs o d with NSeq _ _ :: _ => true | _ => false end
+              | None => false
+              end.
+
+Fixpoint doc_ordered (d : node) (ps : list (option N * pyval)) : bool :=
+  match ps with
+  | [] => true
+  | (po, r) :: rest =>
+      match target_of d po r with
+      | Some (o, i) => forallb (later_ok d o i (neg_index d po r)) rest && doc_ordered d rest
+      | None => false
+      end
+  end.
